@@ -626,8 +626,10 @@ package gedcom
 //@   ensures readers-error: implies(!isnil(result1), result1 == rerr && nRead == nKept + 1)
 //@   assigns alloc
 //@   trustframe
+// (C01 too: decoding keeps the order of the root records - a record is
+// appended behind everything the document already has.)
 //@ func Document.AddNode
-//@   props C03 C02
+//@   props C03 C02 C01
 //@   safety
 //@   requires doc != nil
 //@   ensures nonnil: implies(forall(i, 0, old(len(doc.nodes)), old(doc.nodes[i]) != nil), forall(i, 0, len(doc.nodes), doc.nodes[i] != nil))
@@ -885,6 +887,37 @@ package gedcom
 //@   only C20
 //@   trusted
 //@   pure
+// C13 (b): a HUSB / WIFE / CHIL line answers with what the document's pointer
+// index says NOW - it asks the document on every call and returns that very
+// answer (or nobody); an answer remembered in the line would survive the
+// deletion or replacement of the record it names.
+//@ func HusbandNode.Individual
+//@   props C13
+//@   inline
+//@   ghost nAsk int = 0
+//@   ghost ans iface
+//@   oncall Document.NodeByPointer check this-document: arg0 == node.family.document
+//@   oncall Document.NodeByPointer do nAsk = nAsk + 1; ans = result
+//@   ensures asks-the-document-now: implies(node != nil, nAsk == 1)
+//@   ensures the-documents-answer: result == nil || (nAsk == 1 && result == data(ans))
+//@ func WifeNode.Individual
+//@   props C13
+//@   inline
+//@   ghost nAsk int = 0
+//@   ghost ans iface
+//@   oncall Document.NodeByPointer check this-document: arg0 == node.family.document
+//@   oncall Document.NodeByPointer do nAsk = nAsk + 1; ans = result
+//@   ensures asks-the-document-now: implies(node != nil, nAsk == 1)
+//@   ensures the-documents-answer: result == nil || (nAsk == 1 && result == data(ans))
+//@ func ChildNode.Individual
+//@   props C13
+//@   inline
+//@   ghost nAsk int = 0
+//@   ghost ans iface
+//@   oncall Document.NodeByPointer check this-document: arg0 == node.family.document
+//@   oncall Document.NodeByPointer do nAsk = nAsk + 1; ans = result
+//@   ensures asks-the-document-now: implies(node != nil, nAsk == 1)
+//@   ensures the-documents-answer: result == nil || (nAsk == 1 && result == data(ans))
 //@ func HusbandNode.Individual
 //@   only C20
 //@   trusted
@@ -1506,10 +1539,19 @@ package gedcom
 //@   loop 1 iter iff: nSend - old(nSend) == ite(len(bs) > 0, 1, 0)
 //@   loop 1 iter marks: nStoreA - old(nStoreA) == nSend - old(nSend) && nStoreB - old(nStoreB) == nSend - old(nSend)
 //@   loop 1 nobreak
+// (no longer trusted: the individual a pointer lookup returns is ONE OF THE LIST
+// it was asked about - a lookup through the document's index can return someone
+// who is not a candidate of this comparison)
+//@ func IndividualNodes.ByPointer
+//@   props C11 C10
+//@   inline
+//@   ensures member-of-the-list: result == nil || exists(i, 0, len(nodes), nodes[i] == result)
+// (what the callers of the matching stages see of it; justified by the contract above)
 //@ func IndividualNodes.ByPointer
 //@   only C11 C10
 //@   trusted
 //@   pure
+//@   ensures member-of-the-list: result == nil || exists(i, 0, len(nodes), nodes[i] == result)
 //@ func IndividualNodes.ByUniqueIdentifiers
 //@   only C11 C10
 //@   trusted
@@ -1895,6 +1937,27 @@ package gedcom
 //@   oncall newNode check same-tag-value-pointer: arg0 == document && arg1 == family && arg2.tag == T && arg3 == V && arg4 == P
 //@   oncall newNode do n = n + 1; made = result
 //@   ensures the-copy: n == 1 && result == made
+// A deep copy IS that walk, for every node: Filter over exactly this node into
+// exactly the target document, with a function that copies each node FOR THE
+// TARGET document and always descends. (A shortcut such as 'a childless node is
+// its own ShallowCopy' is not: the shallow copy of a record lands in the SOURCE
+// document, as a plain node - C10's carried-over individuals and families.)
+//@ func DeepCopy
+//@   props C07 C10
+//@   ghost nWalk int = 0
+//@   ghost out iface
+//@   opaque Filter, IsNil
+//@   oncall Filter check this-node-into-the-target: arg0 == node && arg1 == document
+//@   oncall Filter do nWalk = nWalk + 1; out = result0
+//@   ensures by-the-walk: isnil(result0) || (nWalk == 1 && result0 == out)
+//@ func DeepCopy$1
+//@   props C07 C10
+//@   ghost nCopy int = 0
+//@   ghost made iface
+//@   opaque shallowCopyNode
+//@   oncall shallowCopyNode check this-node-for-the-target: arg0 == node && arg1 == document
+//@   oncall shallowCopyNode do nCopy = nCopy + 1; made = result0
+//@   ensures a-copy-for-the-target-and-descend: nCopy == 1 && result0 == made && result1
 //@ func filter
 //@   props C07
 //@   ghost nRec int = 0
